@@ -936,6 +936,15 @@ class CodeGenerator(NodeVisitor):
                 self.writeline(f"{ref} = context.super({name!r}, block_{name})")
             block_frame.symbols.analyze_node(block)
             block_frame.block = name
+            if block.required:
+                # a required block cannot be rendered directly: if it is
+                # the most-derived definition no descendant overrides it.
+                self.writeline(f"if context.blocks[{name!r}][0] is block_{name}:")
+                self.indent()
+                self.writeline(
+                    f'raise TemplateRuntimeError("Required block {name!r} not found")'
+                )
+                self.outdent()
             self.writeline("_block_vars = {}")
             self.enter_frame(block_frame)
             self.pull_dependencies(block.body)
